@@ -216,6 +216,20 @@ Definition last_responses (d : dres) (final : list presp) : list presp :=
 Definition protocol_trace (d : dres) (final : list presp) : list chop :=
   (map OSend (d_flushed d ++ last_responses d final) ++ [OClose])%list.
 
+(* diagnosis for the check: does a (generated) program keep the protocol when the decoder returns nil / an error / panics
+   after one flush?  (goroutine survives, sends then exactly one close at the end) *)
+Definition probe_dres (e : dend) : dres := {| d_flushed := [resp_nil]; d_end := e; d_batch := resp_nil; d_rows := true |}.
+Definition trace_wf (t : list chop) : bool :=
+  match rev t with
+  | OClose :: r => forallb (fun o => match o with OSend _ => true | OClose => false end) r
+  | _ => false
+  end.
+Definition keeps_protocol (tame : list gsimple) (p : gprog) (e : dend) : bool :=
+  let '(t, crashed) := run_prog tame p None (probe_dres e) in negb crashed && trace_wf t.
+Definition prog_verdicts (tame : list gsimple) (ps : list (string * gprog)) : list (string * bool * bool * bool) :=
+  map (fun np => (fst np, keeps_protocol tame (snd np) DEndOk, keeps_protocol tame (snd np) (DEndErr e_panic),
+                  keeps_protocol tame (snd np) DEndPanic)) ps.
+
 (* ---- the decoders of IngestRobust as oracles ---- *)
 Section DECODE_SPANS.
   Variable handler : span_st -> span_in -> (span_st * list presp) + error.
@@ -623,7 +637,10 @@ Inductive site_cover :=
 | SCtxTyped     (* a context value stored with exactly this type by a middleware that runs before: DSN / META / TTL_DAYS by
                    WithOverallContextMiddleware (cfg.ExtraMiddleware), "node" and the services by withTSAndSampleService /
                    withTracesService = the first PreRequest of every route (first_pre_is_service); ddsource/target/id strings *)
-| SEmptySlice.  (* x[:0] *)
+| SEmptySlice   (* x[:0] *)
+| SRangeRect    (* ConfirmSeries: i ranges over ts.MDate of a TimeSeriesData built by onEntries, which appends MDate, MLabels,
+                   MFingerprint and MType together (IngestRobust.ts_add: the four lengths grow together) *)
+| SConstArray.  (* constant bounds inside the fixed-size array bs [17]byte *)
 
 Definition site_allow_list : list (string * string * string * string * site_cover) := [
   ("controller/builder.go", "ErrorHandler", "index", "customErrors.Unwrap[*customErrors.UnMarshalError]", SGeneric);
@@ -650,7 +667,15 @@ Definition site_allow_list : list (string * string * string * string * site_cove
   ("utils/unmarshal/builder.go", "<PreParse closure>", "index", "ctx.ctxMap[key]", SMap);
   ("utils/unmarshal/builder.go", "<PreParse closure>", "assert", "res.(string)", SCtxTyped);
   ("utils/unmarshal/zipkinJsonUnmarshal.go", "zipkinDecoderV2.reset", "slice", "z.key[:0]", SEmptySlice);
-  ("utils/unmarshal/zipkinJsonUnmarshal.go", "zipkinDecoderV2.reset", "slice", "z.val[:0]", SEmptySlice)
+  ("utils/unmarshal/zipkinJsonUnmarshal.go", "zipkinDecoderV2.reset", "slice", "z.val[:0]", SEmptySlice);
+  ("utils/unmarshal/builder.go", "ConfirmSeries", "index", "ts.MFingerprint[i]", SRangeRect);
+  ("utils/unmarshal/builder.go", "ConfirmSeries", "index", "ts.MType[i]", SRangeRect);
+  ("utils/unmarshal/builder.go", "fpsCache.CheckAndSet", "index", "c[date.Unix()]", SMap);
+  ("utils/unmarshal/builder.go", "fpsCache.CheckAndSet", "index", "c[date.Unix()][fp]", SMap);
+  ("utils/unmarshal/builder.go", "fpCacheKey", "slice", "bs[0:8]", SConstArray);
+  ("utils/unmarshal/builder.go", "fpCacheKey", "slice", "bs[8:16]", SConstArray);
+  ("utils/unmarshal/builder.go", "fpCacheKey", "index", "bs[16]", SConstArray);
+  ("utils/unmarshal/builder.go", "fpCacheKey", "slice", "bs[:]", SConstArray)
 ].
 
 Definition site_allowed (s : string * string * string * string) : bool :=
@@ -661,9 +686,10 @@ Definition sites_ok (ss : list (string * string * string * string)) : bool := fo
 Definition unaccounted_sites (ss : list (string * string * string * string)) : list (string * string * string * string) :=
   filter (fun s => negb (site_allowed s)) ss.
 
-(* the functions of package unmarshal that may run on the handler goroutine: setters, resets, constructors *)
+(* the functions of package unmarshal that may run on the handler goroutine: setters, resets, constructors, and
+   ConfirmSeries (called by controller doParse after the inserts; since 00ba95e) with the cache-key helpers *)
 Definition handler_side_functions_model : list string := [
-  "Build"; "ElasticUnmarshal.SetOnEntries"; "NewDecompressor"; "OTLPDecoder.SetOnEntry"; "datadogCFRequestDec.SetOnEntries";
+  "Build"; "ConfirmSeries"; "fpCacheKey"; "fpsCache.CheckAndSet"; "ElasticUnmarshal.SetOnEntries"; "NewDecompressor"; "OTLPDecoder.SetOnEntry"; "datadogCFRequestDec.SetOnEntries";
   "datadogMetricsRequestDec.SetOnEntries"; "datadogRequestDec.SetOnEntries"; "elasticBulkDec.SetOnEntries"; "influxDec.SetOnEntries";
   "logsProtoDec.SetOnEntries"; "newTimeSeriesAndSamples"; "otlpLogDec.SetOnEntries"; "pProfProtoDec.SetOnProfile"; "parserDoer.Do";
   "parserDoer.doParseLogs"; "parserDoer.doParseProfile"; "parserDoer.doParseSpans"; "parserDoer.resetProfile"; "parserDoer.resetSpans";
